@@ -8,7 +8,7 @@
 From Coq Require Import Ascii String.
 From Coq Require Import List ZArith NArith Bool.
 Import ListNotations.
-Require Import V.base.Bytes V.gen.Hagrid V.model.Transcript V.model.Sigma.
+Require Import V.base.Bytes V.gen.Hagrid V.gen.SigmaConsts V.model.Transcript V.model.Sigma.
 Local Open Scope N_scope.
 
 (* ---------- strings as bytes ---------- *)
@@ -43,12 +43,9 @@ Definition bytes_eq (a b : bytes) : bool :=
   Nat.eqb (length a) (length b) && forallb (fun p => N.eqb (fst p) (snd p)) (combine a b).
 
 (* ---------- Fiat–Shamir (fiatshamir.NewProver/NewVerifier + zkmodule.Prove/Verify) ---------- *)
+(* the labels fs_transcriptLabel, zk_*Label, fi_*Label, rf_*Label are regenerated from the
+   const blocks of the compilers on every run: gen/SigmaConsts.v *)
 
-Definition fs_transcriptLabel : bytes := Eval vm_compute in str "BRON_CRYPTO_NIZKP_FIATSHAMIR-".
-Definition zk_statementLabel : bytes := Eval vm_compute in str "BRON_CRYPTO_CGGMP21_ZKMODULE_ZK_STATEMENT-".
-Definition zk_commitmentLabel : bytes := Eval vm_compute in str "BRON_CRYPTO_CGGMP21_ZKMODULE_ZK_COMMITMENT-".
-Definition zk_challengeLabel : bytes := Eval vm_compute in str "BRON_CRYPTO_CGGMP21_ZKMODULE_ZK_CHALLENGE-".
-Definition zk_responseLabel : bytes := Eval vm_compute in str "BRON_CRYPTO_CGGMP21_ZKMODULE_ZK_RESPONSE-".
 
 (* fmt.Sprintf("%s-%s-%s", hex(sid), transcriptLabel, name) *)
 Definition fs_dst (sid pname : bytes) : bytes :=
@@ -92,10 +89,6 @@ End FS.
 
 (* ---------- Fischlin ---------- *)
 
-Definition fi_transcriptLabel : bytes := Eval vm_compute in str "BRON_CRYPTO_NIZK_FISCHLIN-".
-Definition fi_commonHLabel : bytes := Eval vm_compute in str "commonHLabel-".
-Definition fi_rhoLabel : bytes := Eval vm_compute in str "rhoLabel-".
-Definition fi_statementLabel : bytes := Eval vm_compute in str "statementLabel-".
 
 (* mathutils.CeilLog2 *)
 Definition ceil_log2 (x : N) : N := N.size (x - 1).
@@ -164,8 +157,6 @@ Definition fischlin_accept (xof : xof_call -> bytes) (H : bytes -> bytes) (c : c
 
 (* ---------- randomised Fischlin ---------- *)
 
-Definition rf_transcriptLabel : bytes := Eval vm_compute in str "BRON_CRYPTO_NIZK_RANDOMISED_FISCHLIN-".
-Definition rf_crsLabel : bytes := Eval vm_compute in str "crsLabel-".
 Definition rf_R : N := 16.         (* Lambda / L = 128 / 8 *)
 Definition rf_LBytes : nat := 1.   (* L / 8 *)
 
